@@ -95,10 +95,10 @@ def run(ctx):
     # (round 5) a second user of the same client closing the layout target (alone / after its own copy into it) at
     # every request position and after every stored blob of the running copy; warm caches of the same client
     cl = e.closers("closer")
-    cl = cl if th else cc.cover_sample(rng, cl, 170, [lambda s: (s["shape"], s["pair"], bool(s.get("closer_cb"))),
+    cl = cc.cover_sample(rng, cl, 1200 if th else 170, [lambda s: (s["shape"], s["pair"], bool(s.get("closer_cb"))),
                                                       lambda s: (s["closer_op"], (s.get("closer") or {}).get("class"))])
     wm = e.warm_cache("warm")
-    wm = wm if th else cc.cover_sample(rng, wm, 60, [lambda s: (s["shape"], s["prior"], s["prior_arg"])])
+    wm = cc.cover_sample(rng, wm, 300 if th else 60, [lambda s: (s["shape"], s["prior"], s["prior_arg"])])
     scns = scripts + sw + sh_sw + slow + rew + e.client_history("history") + e.round4("round4") + cl + wm
     loopy = [x for x in scns if x["shape"] in cc.LOOP_SHAPES and x["opts"].get("dtags")]
     keep = set(id(x) for x in loopy[:(30 if th else 6)])
